@@ -350,23 +350,22 @@ pub fn should_use_sparse_threshold(vector: &[f32], threshold: f32) -> bool {
 }
 
 /// Heuristic: does this vector look like an ID list?
+///
+/// Whatever the field is called, the delta + varint form is only exact for ascending,
+/// non-negative integral values that fit in a `u64`; anything else stays a raw vector.
 fn looks_like_id_list(vector: &[f32], field_name: &str) -> bool {
-    if field_name == "ids" || field_name.ends_with("_ids") {
-        return true;
-    }
+    // 2^64: the first value `as u64` would saturate at
+    const U64_LIMIT: f32 = 18_446_744_073_709_551_616.0;
 
-    if vector.len() < 2 {
+    let named_ids = field_name == "ids" || field_name.ends_with("_ids");
+
+    if vector.is_empty() || (vector.len() < 2 && !named_ids) {
         return false;
     }
 
-    // Check first value
-    if vector[0] < 0.0 || vector[0].fract() != 0.0 {
-        return false;
-    }
-
-    let mut prev = vector[0];
-    for &v in &vector[1..] {
-        if v < prev || v < 0.0 || v.fract() != 0.0 {
+    let mut prev = 0.0f32;
+    for &v in vector {
+        if v.is_sign_negative() || v.fract() != 0.0 || v >= U64_LIMIT || v < prev {
             return false;
         }
         prev = v;
